@@ -16,6 +16,7 @@ import (
 
 	"verif/explore"
 	"verif/harness"
+	"verif/vs"
 )
 
 // Def describes the check of one property.
@@ -319,4 +320,41 @@ func Replay(path string) {
 		os.Exit(1)
 	}
 	fmt.Println("replay: property holds on this schedule; outcome:", o1.Class)
+}
+
+// Race runs the harness bodies of a check free (no scheduler; the shim passes through to the real
+// primitives) so that a binary built with -race can observe unsynchronised accesses. It samples
+// schedules and decides nothing: supplementary evidence only.
+func Race(id string, reps int) {
+	def, ok := Defs[id]
+	if !ok {
+		fmt.Fprintln(os.Stderr, "HARNESS-ERROR: unknown check", id)
+		os.Exit(2)
+	}
+	runs, skipped := 0, 0
+	for _, sc := range def.Gen("quick") {
+		if strings.Contains(string(sc.Spec.Params), "infinite") || strings.Contains(string(sc.Spec.Params), `"limit":0`) {
+			skipped++ // does not end by itself when running free
+			continue
+		}
+		for r := 0; r < reps; r++ {
+			main, _, _ := sc.Build()
+			vs.FreeStart = time.Now()
+			done := make(chan struct{})
+			go func() {
+				func() {
+					defer func() { _ = recover() }()
+					main()
+				}()
+				vs.FreeWG.Wait()
+				close(done)
+			}()
+			select {
+			case <-done:
+			case <-time.After(3 * time.Second):
+			}
+			runs++
+		}
+	}
+	fmt.Printf("race pass %s: %d free runs, %d scenarios skipped (never end when running free)\n", id, runs, skipped)
 }
